@@ -5,7 +5,8 @@ sid=$1; shift
 cd /verif
 [ -f seeded/$sid/patch.diff ] || { echo "no seeded/$sid/patch.diff"; exit 2; }
 git -C /repo diff --quiet || { echo "/repo is not clean"; exit 2; }
-git -C /repo apply /verif/seeded/$sid/patch.diff || { echo "patch does not apply"; exit 2; }
+# hook commits made after a seed was written may have moved the surrounding lines: fall back to reduced context
+git -C /repo apply /verif/seeded/$sid/patch.diff 2>/dev/null || git -C /repo apply -C1 /verif/seeded/$sid/patch.diff || { echo "patch does not apply"; exit 2; }
 for p in "$@"; do
   ./check $p --tier ${TIER:-quick} > work/seeded-$sid-$p.log 2>&1
   rc=$?
